@@ -45,7 +45,7 @@ func c07Cells() []c07Cell {
 	} {
 		for _, r := range sc.rpcs {
 			for _, mode := range []string{"fail-before-delivery", "deliver-lose-response"} {
-				for _, pat := range []string{"first", "first-3"} {
+				for _, pat := range []string{"first", "first-3", "every"} {
 					out = append(out, c07Cell{sc.name, r.m, r.a, mode, pat})
 				}
 			}
@@ -126,6 +126,9 @@ func runC07Cell(t tfail, rec *ev.Recorder, ring c07Ring, cell c07Cell) *c07Resul
 	to := 1
 	if cell.Pattern == "first-3" {
 		to = 3
+	}
+	if cell.Pattern == "every" {
+		to = 1 << 30 // the fault persists until the attempt has used up all of its retries
 	}
 	rule := r.net.AddRule(&ringsim.FaultRule{Method: cell.Method, Arg: cell.Arg, AnyCaller: true, AnyCallee: true, Mode: mode, From: 1, To: to})
 
@@ -227,13 +230,14 @@ func runC07Cell(t tfail, rec *ev.Recorder, ring c07Ring, cell c07Cell) *c07Resul
 
 func TestC07(t *testing.T) {
 	rec := ev.New(t, "C07")
-	rec.Rule("fault enumeration: for every rapid-generated ring (2..5 real LocalNodes with ids next to the keys' hashes, 5..20 acknowledged keys with values and prefix children, generated joiner position / leaver) the COMPLETE product {RequestToJoin, Import, FinishJoin(stabilize), FinishJoin(release)} x {join} and {RequestToLeave, Import, FinishLeave(stabilize), FinishLeave(release)} x {leave} x {request dropped before delivery, delivered but response lost (caller sees a deadline error)} x {first occurrence, first three occurrences} = 32 cells is executed: the fault is injected in the RPC proxy, the real Join/Leave runs to completion (incl. its retry loop), faults are cleared, the ring gets a quiet period of <= 80 maintenance rounds. Oracle: every remaining node is Active and every acknowledged key/child is readable with its value through every remaining node (retryable errors retried <= 60x). An evaluation is one (ring, cell); non-trivial: the fault actually fired. Distinct = (ring, cell).")
+	rec.Rule("fault enumeration: for every rapid-generated ring (2..5 real LocalNodes with ids next to the keys' hashes, 5..20 acknowledged keys with values and prefix children, generated joiner position / leaver) the COMPLETE product {RequestToJoin, Import, FinishJoin(stabilize), FinishJoin(release)} x {join} and {RequestToLeave, Import, FinishLeave(stabilize), FinishLeave(release)} x {leave} x {request dropped before delivery, delivered but response lost (caller sees a deadline error)} x {first occurrence, first three occurrences, every occurrence until the attempt has exhausted its retries} = 48 cells (the 'every' pattern for the first ring only in the quick tier) is executed: the fault is injected in the RPC proxy, the real Join/Leave runs to completion (incl. its retry loop), faults are cleared, the ring gets a quiet period of <= 80 maintenance rounds. Oracle: every remaining node is Active and every acknowledged key/child is readable with its value through every remaining node (retryable errors retried <= 60x). An evaluation is one (ring, cell); non-trivial: the fault actually fired. Distinct = (ring, cell).")
 	rec.Assume("faults are injected at the RPC boundary only (the proxy emulates RemoteNode: a lost response surfaces as context.DeadlineExceeded); nodes do not crash in this property")
 	cells := c07Cells()
 	rec.Note("cells_per_ring", len(cells))
 	known := map[string]bool{}
 	reproduced := map[string]bool{}
 	var unknown []*c07Result
+	ringNo := 0
 	ev.RapidCheck(t, 3, 60, func(t *rapid.T) {
 		anchors := []uint64{}
 		for _, k := range c07Keys {
@@ -248,7 +252,13 @@ func TestC07(t *testing.T) {
 			Via:    rapid.IntRange(0, 1<<10).Draw(t, "via"),
 			Offset: rapid.SampledFrom([]int{0, 1, 1 << 20, 1 << 30}).Draw(t, "offset"),
 		}
+		ringNo++
 		for _, cell := range cells {
+			// the "every occurrence" pattern makes the real retry loops run to exhaustion (~2 s of
+			// back-off each): all rings in the thorough tier, the first ring only in the quick tier
+			if cell.Pattern == "every" && !ev.Thorough() && ringNo > 1 {
+				continue
+			}
 			res := runC07Cell(t, rec, ring, cell)
 			if res == nil {
 				continue
